@@ -43,6 +43,9 @@ def diagnose_down_loss(k, cname, frames):
     return None
 
 
+C2C = 0xFC2C        # id prefix of client-to-client frames exchanged with a bystander session (not part of the judged streams)
+
+
 def _seq_check(k, reader, writer, eligible, t_from=None, offer_time=None):
     """Compare the sequence of eligible frames `reader` took from its tun with the sequence `writer` wrote.
     Returns (problem|None, n_read, n_written)."""
@@ -66,7 +69,7 @@ def _seq_check(k, reader, writer, eligible, t_from=None, offer_time=None):
                     f = pending
                     pending = None
                     i = proto.frame_ident(f)
-                    if i is not None and (i >> 20) != 0xDEAD and eligible(f) and (t_from is None or offer_time.get(i, 0) >= t_from):
+                    if i is not None and (i >> 20) not in (0xDEAD, C2C) and eligible(f) and (t_from is None or offer_time.get(i, 0) >= t_from):
                         reads.append((i, f))
                 continue
             if pending is not None and ev[1] == "wait":
@@ -76,12 +79,12 @@ def _seq_check(k, reader, writer, eligible, t_from=None, offer_time=None):
         if ev[1] == "tun_read" and ev[2] == reader and reader == "srv":
             f = ev[3]["data"]
             i = proto.frame_ident(f)
-            if i is not None and (i >> 20) != 0xDEAD and eligible(f) and (t_from is None or offer_time.get(i, 0) >= t_from):
+            if i is not None and (i >> 20) not in (0xDEAD, C2C) and eligible(f) and (t_from is None or offer_time.get(i, 0) >= t_from):
                 reads.append((i, f))
         elif ev[1] == "tun_write" and ev[2] == writer:
             f = ev[3]["data"]
             i = proto.frame_ident(f)
-            if i is not None and (i >> 20) != 0xDEAD and eligible(f) and (t_from is None or offer_time.get(i, -1) >= t_from):
+            if i is not None and (i >> 20) not in (0xDEAD, C2C) and eligible(f) and (t_from is None or offer_time.get(i, -1) >= t_from):
                 writes.append((i, f))
     ri = [i for i, _ in reads]
     wi = [i for i, _ in writes]
@@ -139,10 +142,24 @@ def scn(params):
         if mode == "clean":
             tt = k.now + US // 2
             n = params.get("nframes", 24)
+            by = len(t.clients) > 1       # a second logged-in client exchanges packets with the judged one through the server
+            if by:
+                k.keep_snaps = True
+            nby = [0]
+
+            def c2c(at, frm, to):
+                nby[0] += 1
+                fr = tunnelscn.pick_frame(t, rng, "cli", (C2C << 20) | nby[0], frm, sizes=[40, 100, 300, 600], to_client=to)
+                k.at(at, k.offer_tun, t.clients[frm].name, fr, None)
             for i in range(n):
                 offer(tt, "srv")
                 offer(tt + rng.choice([0, 1000, 50000]), "cli")
+                if by and rng.random() < 0.6:
+                    c2c(tt + rng.choice([0, 2000, 30000, 200000]), 1, 0)
+                if by and rng.random() < 0.3:
+                    c2c(tt + rng.choice([0, 2000, 30000]), 0, 1)
                 tt += rng.choice([0, 0, 5000, 100000, 400000, 1000000, 2500000])
+            st["bystander_frames"] = nby[0]
             st["t_clean"] = t.t0
             st["last_offer"] = tt
             return tt + 90 * US
@@ -222,10 +239,25 @@ def scn(params):
         up_ok = (lambda f: True) if raw else (lambda f: tunnelscn.est_up_frags(f, cap) <= MAXFR)
         ot = st["offer_time"]
         if mode == "clean":
+            # With a second session the server keeps reading its tun while only one session's queue is full, and then
+            # drops what does not fit (documented behaviour of the 4-packet queue): losses downstream are judged only
+            # when the judged session's queue never filled up.
+            qfull = False
+            if len(t.clients) > 1:
+                out["stats"]["bystander_frames"] = st.get("bystander_frames", 0)
+                for ev in k.log:
+                    if ev[1] == "wait" and ev[2] == "srv" and "rows" in ev[3]:
+                        if any(r.get("outpacketq_filled", 0) >= 4 for r in ev[3]["rows"]):
+                            qfull = True
+                            break
+                out["stats"]["bystander_runs_queue_filled"] = int(qfull)
             for (reader, writer, elig, d) in (("srv", cname, down_ok, "down"), (cname, "srv", up_ok, "up")):
                 prob, nr, nw = _seq_check(k, reader, writer, elig)
                 out["stats"]["clean_%s_accepted" % d] = nr
                 out["stats"]["clean_%s_delivered" % d] = nw
+                if prob and qfull and d == "down" and prob[0] == "lost":
+                    out["stats"]["bystander_losses_not_judged"] = 1
+                    prob = None
                 if prob:
                     key = "C02:clean-path:%s:%s" % (d, prob[0])
                     why = ""
@@ -289,7 +321,8 @@ def run(ctx):
     res = core.Result()
     res.rule = ("real client + real server through the relay, one session. clean scenarios: 24 frame pairs offered in "
                 "bursts/gaps; oracle: sequence of frames the reader took from its tun == sequence the peer wrote "
-                "(frames estimated to need >14 fragments excluded). recovery scenarios: 5-40 virtual s of faults "
+                "(frames estimated to need >14 fragments excluded); in a quarter of them a second logged-in client exchanges "
+                "client-to-client packets with the judged one through the server. recovery scenarios: 5-40 virtual s of faults "
                 "(class drawn per scenario), then clean; oracle: both processes alive, a frame offered after the "
                 "path became clean is delivered within B=30 s each way, frames offered after t_clean+B are delivered "
                 "exactly once in order. non-trivial = >=8 judged deliveries each way; distinct over (mode, fault "
@@ -301,6 +334,8 @@ def run(ctx):
     for i in range(n):
         mode = "clean" if i % 3 == 0 else "recover"
         cfg = tunnelscn.gen_config(rng, i + ctx.seed, faults=(mode != "clean"), nclients_max=1)
+        if mode == "clean" and i % 4 == 0 and not cfg["raw"]:
+            cfg["nclients"] = 2           # a bystander session exchanging client-to-client packets with the judged one
         plist.append({"idx": i, "seed": ctx.seed * 100000 + i, "cfg": cfg, "mode": mode})
     if ctx.replay:
         plist = [ctx.replay["witness"]["params"]]
